@@ -481,8 +481,8 @@ func c08Bookkeeping(w *World, r *Report, rule string) {
 	// Push and Write in one critical section in Send / SendRaw
 	for _, k := range []string{"xmpp.(*Client).Send", "xmpp.(*Client).SendRaw"} {
 		fn := w.Func(k)
-		pushes := w.callsIn(fn, "stanza.UnAckQueue.Push")
-		writes := w.callsIn(fn, "xmpp.Client.sendWithWriter", "xmpp.Transport.Write", "io.Writer.Write")
+		pushes := w.callsInH(fn, "stanza.UnAckQueue.Push")
+		writes := w.callsInH(fn, "xmpp.Client.sendWithWriter", "xmpp.Transport.Write", "io.Writer.Write")
 		if len(pushes) == 0 || len(writes) == 0 {
 			r.Undecided(rule, k+"#push+write", w.pos(fn.Pos()), "no Push or no write found")
 			continue
